@@ -30,7 +30,9 @@ static void runDeque(Case& c, bool cd, bool pia) {
   std::deque<Item> dq(c.initial.begin(), c.initial.end());
   Op op{&c};
   auto range = galois::iterate(dq);
-  if (cd)
+  if (cd && pia) // the operator uses the per-iteration allocator: the loop must declare it, or nothing ever resets it
+    galois::for_each(range, op, galois::wl<WL>(), galois::per_iter_alloc(), galois::no_stats());
+  else if (cd)
     galois::for_each(range, op, galois::wl<WL>(), galois::no_stats());
   else
     galois::for_each(range, op, galois::wl<WL>(), galois::disable_conflict_detection(), galois::no_stats());
